@@ -320,7 +320,14 @@ impl rustc_driver::Callbacks for Cb {
             if matches!(tcx.def_kind(did), DefKind::Struct | DefKind::Enum) {
                 let def = tcx.adt_def(did);
                 if !first { out.push(','); } first = false;
-                let _ = write!(out, "{{\"path\":{},\"variants\":[", esc(&tcx.def_path_str(did)));
+                let exported = ev.is_reachable(id.owner_id.def_id);
+                let size = {
+                    let ty = tcx.type_of(did).instantiate_identity().skip_norm_wip();
+                    if tcx.generics_of(did).count() == 0 {
+                        tcx.layout_of(TypingEnv::fully_monomorphized().as_query_input(ty)).map(|l| l.size.bytes() as i64).unwrap_or(-1)
+                    } else { -1 }
+                };
+                let _ = write!(out, "{{\"path\":{},\"exported\":{},\"size\":{},\"variants\":[", esc(&tcx.def_path_str(did)), exported, size);
                 for (vi, v) in def.variants().iter().enumerate() {
                     if vi > 0 { out.push(','); }
                     let fs: Vec<String> = v.fields.iter().map(|f| format!("{{\"name\":{},\"ty\":{},\"pub\":{}}}", esc(&f.name.to_string()), esc(&tcx.type_of(f.did).instantiate_identity().skip_norm_wip().to_string()), f.vis.is_public())).collect();
